@@ -4,7 +4,9 @@ package main
 
 import (
 	"fmt"
+	"go/token"
 	"go/types"
+	"os"
 	"sort"
 	"strings"
 
@@ -76,9 +78,28 @@ func (x *Exec) loopHeader(st *State, fr *Frame, b *ssa.BasicBlock, prev *ssa.Bas
 		}
 		if !l.body[prev] {
 			fr.visits[b] = 0 // entered from outside: iterations are counted per entry
+			delete(fr.visits, l.header) // (same key; kept for clarity)
+			if fr.forked != nil {
+				delete(fr.forked, b)
+			}
+		}
+		fr.visits[b]++
+		if fr.forked[b] && fr.visits[b] > x.boundK+1 {
+			// a loop whose course depends on symbolic data: at most boundK iterations per entry
+			x.boundHits++
+			return nil, true
 		}
 		fr.unroll++
 		if fr.unroll > unrollLimit {
+			if os.Getenv("VERIF_EQUIV_DEBUG") != "" {
+				fmt.Fprintf(os.Stderr, "unroll limit in %s loop %d, visits %v, pc tail:\n", fr.fn, l.ordinal, fr.visits)
+				n := len(st.pc)
+				for i := n - 12; i < n; i++ {
+					if i >= 0 {
+						fmt.Fprintf(os.Stderr, "   %s\n", st.pc[i])
+					}
+				}
+			}
 			fail("loop %d of %s does not unroll (no invariant given)", l.ordinal, fr.fn)
 		}
 		return nil, false
@@ -134,11 +155,24 @@ func (x *Exec) loopHeader(st *State, fr *Frame, b *ssa.BasicBlock, prev *ssa.Bas
 		}
 	}
 	setPhis := func(f *Frame, vals []Value) {
+		hasRange := false
 		for i := 0; i < nphi; i++ {
 			phi := b.Instrs[i].(*ssa.Phi)
 			f.regs[phi] = vals[i]
 			if phi.Comment != "" {
 				f.env[phi.Comment] = envEntry{v: vals[i]}
+				if phi.Comment == "rangeindex" {
+					hasRange = true
+				}
+			}
+		}
+		if !hasRange {
+			// a counting loop "for i := 0; ...; i++" that used to be (or may be read as) a range
+			// loop: annotations written for the range form speak of rangeindex == i - 1
+			if k := countingPhi(b, l); k >= 0 {
+				if t, ok := vals[k].(*Term); ok && t.sort == SInt {
+					f.env["rangeindex"] = envEntry{v: mkSub(t, mkInt(1))}
+				}
 			}
 		}
 	}
@@ -379,6 +413,19 @@ func (x *Exec) havocLoop(st *State, fr *Frame, b *ssa.BasicBlock, nphi int, writ
 			fr.env[phi.Comment] = envEntry{v: nv}
 		}
 	}
+	if _, has := fr.env["rangeindex"]; !has || fr.rangeAlias[b] {
+		if l := x.loops(fr.fn)[b]; l != nil {
+			if k := countingPhi(b, l); k >= 0 {
+				if t, ok := fr.regs[b.Instrs[k].(*ssa.Phi)].(*Term); ok && t.sort == SInt {
+					fr.env["rangeindex"] = envEntry{v: mkSub(t, mkInt(1))}
+					if fr.rangeAlias == nil {
+						fr.rangeAlias = map[*ssa.BasicBlock]bool{}
+					}
+					fr.rangeAlias[b] = true
+				}
+			}
+		}
+	}
 	var cells []*Cell
 	for c := range written {
 		cells = append(cells, c)
@@ -460,42 +507,21 @@ func (x *Exec) frameEnv(fr *Frame) *Env {
 	return env
 }
 
-// boundedStay is called in a bounded run when a symbolic branch is forked at
-// block b: if b is an exit test of a loop (one successor leaves the innermost
-// loop containing b), the path that stays in the loop counts one iteration;
-// it reports whether that path is still within the bound.
-func (x *Exec) boundedStay(fr *Frame, b *ssa.BasicBlock, succ int) bool {
+// boundedFork is called in a bounded run when a symbolic branch is forked at
+// block b: every loop containing b now depends on symbolic data, and its
+// iterations are counted (see loopHeader).
+func (x *Exec) boundedFork(fr *Frame, b *ssa.BasicBlock) {
 	if x.boundK <= 0 {
-		return true
+		return
 	}
-	li := x.loops(fr.fn)
-	// innermost loop containing b: the one with the smallest body
-	var best *loopT
-	var bestH *ssa.BasicBlock
-	for h, l := range li {
-		if l.body[b] && (best == nil || len(l.body) < len(best.body)) {
-			best, bestH = l, h
+	for h, l := range x.loops(fr.fn) {
+		if l.body[b] {
+			if fr.forked == nil {
+				fr.forked = map[*ssa.BasicBlock]bool{}
+			}
+			fr.forked[h] = true
 		}
 	}
-	if best == nil {
-		return true
-	}
-	in0, in1 := best.body[b.Succs[0]], best.body[b.Succs[1]]
-	if in0 == in1 {
-		return true // not an exit test
-	}
-	if !best.body[b.Succs[succ]] {
-		return true // the leaving path
-	}
-	if fr.visits == nil {
-		fr.visits = map[*ssa.BasicBlock]int{}
-	}
-	fr.visits[bestH]++
-	if fr.visits[bestH] > x.boundK {
-		x.boundHits++
-		return false
-	}
-	return true
 }
 
 // havocArrName names the unknown contents of a havocked array. In a bounded
@@ -513,4 +539,47 @@ func (x *Exec) havocArrName(base string) string {
 	}
 	x.symArrCtr++
 	return fmt.Sprintf("%s_h%d", base, x.symArrCtr)
+}
+
+// countingPhi: index of the header phi of a loop that starts at 0 outside the
+// loop and is incremented by 1 inside it (-1 unless there is exactly one).
+func countingPhi(b *ssa.BasicBlock, l *loopT) int {
+	found := -1
+	for i, in := range b.Instrs {
+		phi, ok := in.(*ssa.Phi)
+		if !ok {
+			break
+		}
+		bt, isB := phi.Type().Underlying().(*types.Basic)
+		if !isB || bt.Kind() != types.Int {
+			continue
+		}
+		okIn, okOut := false, false
+		for ei, e := range phi.Edges {
+			if l.body[b.Preds[ei]] {
+				if bo, ok := e.(*ssa.BinOp); ok && bo.Op == token.ADD {
+					if c, ok := bo.Y.(*ssa.Const); ok && c.Value != nil && c.Int64() == 1 && bo.X == ssa.Value(phi) {
+						okIn = true
+						continue
+					}
+				}
+				okIn = false
+				break
+			} else {
+				if c, ok := e.(*ssa.Const); ok && c.Value != nil && c.Int64() == 0 {
+					okOut = true
+				} else {
+					okOut = false
+					break
+				}
+			}
+		}
+		if okIn && okOut {
+			if found >= 0 {
+				return -1
+			}
+			found = i
+		}
+	}
+	return found
 }
